@@ -25,6 +25,17 @@ Theorem C12_gas_bound : forall n s s',
 Proof. exact gas_bound. Qed.
 Print Assumptions C12_gas_bound.
 
+(* the gas limit is any finite limit, 0 included (C12_run_total and C12_gas_bound ask 0 <= limit only; a negative limit is the
+   implementation's "no limit" and outside the property): under limit 0 the first priced instruction faults (PUSH1 costs
+   1 unit; JMP 0 cannot spin), the empty script and RET (price 0) halt having consumed 0 *)
+Example C12_gas_limit_zero_example :
+  run 5 (init_state [17] 1%N 1 0) = Faulted 1 /\ run 5 (init_state [34; 0] 1%N 30 0) = Faulted 60 /\
+  match run 5 (init_state [] 1%N 1 0) with Halted s => s_gas s = 0 | _ => False end /\
+  match run 5 (init_state [64] 1%N 1 0) with Halted s => s_gas s = 0 | _ => False end /\
+  match run 5 (init_state [17; 17; 158] 1%N 1 10) with Halted s => s_gas s = 10 | _ => False end /\
+  run 5 (init_state [17; 17; 158] 1%N 1 9) = Faulted 10.
+Proof. vm_compute. repeat split; reflexivity. Qed.
+
 (* the limits hold after every instruction that does not FAULT: item counter <= MaxStackSize, integers within
    256 bits, byte strings and buffers <= MaxItemSize (everywhere: stacks, slots, heap, pending exception),
    <= MaxInvocationStackSize contexts, <= MaxTryNestingDepth try blocks per context *)
